@@ -57,6 +57,9 @@ MANIFEST = {
 
 NAMES = ["A", "B", "C", "D", "E"]
 SEQS = {"A": "ACGURN-AC", "B": "CcGYAN?Gu", "C": "GATTAC-KA", "D": "TAGSWMBDC", "E": "AMCGTVHAG"}
+# columns 9 and 10 equal column 4 except for WHICH non-state symbol some taxa carry (another partial ambiguity code / an unknown): with
+# ambiguities honoured they are three different patterns, with ambiguities as missing (or tip states) they are one
+SEQS = {n: q + x for (n, q), x in zip(SEQS.items(), ("YN", "AA", "AA", "S-", "TT"))}
 
 
 def _clades(node, nodes):
@@ -95,7 +98,11 @@ def _build(mk, desc, T, blsym, subst_kind, freqs, site_pattern=None):
     allnames = frozenset(taxa_names)
     taxa = Taxa("taxa", [Taxon(n, {}) for n in taxa_names])
     seqs = {n: "".join(SEQS[n][c] for c in desc["cols"]) for n in taxa_names}
-    aln = Alignment("a", [Sequence(n, seqs[n]) for n in desc["seq_order"]], taxa, NucleotideDataType(None))
+    aln_taxa = taxa
+    if desc.get("aln_taxa"):
+        # the alignment carries a Taxa object of its OWN (same taxa, another order): one more way of writing the same data down
+        aln_taxa = Taxa("taxa.alignment", [Taxon(n, {}) for n in desc["aln_taxa"]])
+    aln = Alignment("a", [Sequence(n, seqs[n]) for n in desc["seq_order"]], aln_taxa, NucleotideDataType(None))
     # Taxa and Alignment are mutable lists: an edit between their construction and the construction of the tree model / likelihood
     # is one more way of writing the same data down (leaf indices follow the Taxa order at the time the tree model is built)
     edit = desc.get("edit")
@@ -471,6 +478,21 @@ def obligations(tier, seed):
             a2 = dict(base, cols=base["cols"] + [base["cols"][0]])
             b = dict(a2, cols=list(reversed(a2["cols"])))
             add("C02.column_order[%s]" % base["newick"], (T, a2, b, "stub"), "column order / merged patterns")
+            # the alignment and the tree model hold two Taxa objects listing the same taxa in different orders
+            for tip_states in ((False, True) if k == 0 else (False,)):
+                b = dict(base, aln_taxa=list(reversed(names)) if k % 2 == 0 else rng.sample(names, T), tip_states=tip_states)
+                add("C02.separate_taxa_objects[%s,alignment taxa=%s,tipstates=%s]" % (base["newick"], "".join(b["aln_taxa"]), tip_states),
+                    (T, dict(base, tip_states=tip_states), b, "stub"), "tip data matched to leaves by taxon name (alignment with a Taxa object of its own)")
+            # columns that differ only in WHICH ambiguity code a taxon carries: distinct patterns when ambiguities are honoured
+            if T <= 4:
+                for amb in (True, False):
+                    a5 = dict(base, cols=[4, 9, 10, 0, 9], use_amb=amb)
+                    b = dict(a5, cols=[9, 10, 0, 4, 9])
+                    add("C02.column_order.ambiguity_codes[%s,use_ambiguities=%s]" % (base["newick"], amb), (T, a5, b, "stub"),
+                        "column order / merged patterns (columns equal up to the ambiguity code)")
+                b = dict(base, cols=[10, 9, 4], tip_states=True)
+                add("C02.column_order.ambiguity_codes[%s,tip states]" % base["newick"], (T, dict(base, cols=[4, 9, 10], tip_states=True), b, "stub"),
+                    "column order / merged patterns (columns equal up to the ambiguity code)")
             # NEWICK rooting comment: '[&R]' / '[&U]' in front of the string is part of the notation, not of the tree
             for tag in ("[&U]", "[&R]"):
                 if tag == "[&R]" and k % 2:
